@@ -51,13 +51,13 @@ def judge(ctx):
             ctx.fail("exhaustion-incomplete:" + g, "%s returned %d sequences but not the reference multiset" % (g, len(got)))
 
 
-CFG = G.cfg(aux=True, p_weight=0.35, blocks=("cross", "cross", "multi", "repeat", "merge", "nest"))
+CFG = G.cfg(aux=True, p_weight=0.35, round_share=3, blocks=("cross", "cross", "multi", "repeat", "merge", "nest"))
 P = D.DesignProperty(
     "C09", judge,
     rule=("case = generated design spec in the reference domain (<= max_seqs solutions) plus an aux seed choosing the requested count "
           "per strategy from {1, n_ref-1, n_ref, n_ref+3}; non-trivial = n_ref >= 2; class has-copies = some printing has multiplicity > 1; "
           "distinct = distinct spec JSON"),
     cfg_quick=CFG, n_quick=60, n_thorough=700, case_limit=(15, 120),
-    limits={"max_T": {"quick": 7, "thorough": 9}, "max_seqs": {"quick": 200, "thorough": 1500}, "always_exhaust": {"quick": 60, "thorough": 300}},
+    limits={"max_T": {"quick": 7, "thorough": 9}, "max_seqs": {"quick": 600, "thorough": 2500}, "always_exhaust": {"quick": 60, "thorough": 300}},
     assumptions=["vp/ref.py implements the documented semantics including multiplicities of weighted levels outside the crossing"])
 P.export(globals())
